@@ -1,38 +1,115 @@
 (* C16 — proofs about Model/Serializer.v *)
-From PG Require Import Lib.Strs Model.Converter Model.Serializer.
+From PG Require Import Lib.Strs Model.Converter Model.Serializer Proofs.Converter.
+From Coq Require Import Lia.
 
-(* F16a: a two-dataclass reference cycle.  cattrs never stops: the walk fails for EVERY fuel. *)
+(* ---------- F16a: a two-dataclass reference cycle (attributes followed by cattrs) ---------- *)
 Definition h_F16a : heap := [SData [([98], 1%nat)]; SData [([97], 0%nat)]].
 
-Lemma walk_F16a : forall fuel r, (r = 0 \/ r = 1)%nat -> cattrs_walk fuel h_F16a r = Err.
+Lemma walk_F16a : forall fuel r, (r = 0 \/ r = 1)%nat -> cattrs_walk fuel h_F16a r = SFuel.
 Proof.
   induction fuel as [|f IH]; intros r Hr; [reflexivity|].
-  destruct Hr as [-> | ->]; cbn [cattrs_walk deref nth h_F16a map_result snd bind].
+  destruct Hr as [-> | ->]; cbn [cattrs_walk deref nth h_F16a smap snd sbind].
   - rewrite (IH 1%nat) by (right; reflexivity). reflexivity.
   - rewrite (IH 0%nat) by (left; reflexivity). reflexivity.
 Qed.
 
 Lemma refuted_F16a :
-  guard_F16a h_F16a 0 = false /\ forall fuel, ~ serializer_ok (serialize fuel h_F16a [] 0).
+  guard_F16a h_F16a 0 = false /\ forall fuel, ~ serializer_ok (ser fuel h_F16a true [] 0).
 Proof.
   split; [vm_compute; reflexivity|].
   intros fuel [j [H _]]. destruct fuel as [|f]; [discriminate|].
-  cbn [serialize deref nth h_F16a existsb] in H.
+  cbn [ser deref nth h_F16a existsb] in H.
   rewrite walk_F16a in H by (left; reflexivity). discriminate.
 Qed.
 
-(* ======================================================================================
-   Under the guard: on a topologically ordered heap (every stored reference points to a smaller
-   index — hence acyclic) whose scalar cells hold scalars, serialize terminates with JSON that has
-   no null-valued key, from every root and every visited set.
-   ====================================================================================== *)
-From Coq Require Import Lia.
-From PG Require Import Proofs.Converter.
+(* ---------- F16d: a dict whose value is a forward-reference dataclass holding another instance:
+   the dict branch never runs _ensure_all_dicts, the inner instance stays a Python object ---------- *)
+Definition h_F16d : heap := [SFwd []; SFwd [([112], 0%nat)]; SDict [([107], 1%nat)]].
 
-Definition scalar_json (j : json) : bool :=
-  match j with JBool _ | JInt _ | JFloat _ | JStr _ => true | _ => false end.
-Definition scalars_ok (h : heap) : bool :=
-  forallb (fun o => match o with SScalar j => scalar_json j | _ => true end) h.
+Lemma refuted_F16d :
+  guard_F16d h_F16d 2 = false /\ guard_F16a h_F16d 2 = true /\
+  forall fuel, ~ serializer_ok (ser fuel h_F16d true [] 2).
+Proof.
+  split; [vm_compute; reflexivity|]. split; [vm_compute; reflexivity|].
+  intros fuel [j [H _]]. destruct fuel as [|[|[|f]]]; cbn in H; discriminate.
+Qed.
+
+(* ---------- the positive part ---------- *)
+Section MixedInd.
+  Variable P : mixed -> Prop.
+  Hypothesis HNull : P MNull.
+  Hypothesis HScalar : forall j, P (MScalar j).
+  Hypothesis HArr : forall l, Forall P l -> P (MArr l).
+  Hypothesis HObj : forall kvs, Forall (fun kv => P (snd kv)) kvs -> P (MObj kvs).
+  Hypothesis HRaw : forall r, P (MRaw r).
+  Fixpoint mixed_ind' (m : mixed) : P m :=
+    match m with
+    | MNull => HNull | MScalar j => HScalar j | MRaw r => HRaw r
+    | MArr l => HArr l ((fix go (l : list mixed) : Forall P l :=
+                           match l with [] => Forall_nil _ | x :: r => Forall_cons _ (mixed_ind' x) (go r) end) l)
+    | MObj kvs => HObj kvs ((fix go (l : list (str * mixed)) : Forall (fun kv => P (snd kv)) l :=
+                           match l with [] => Forall_nil _ | x :: r => Forall_cons _ (mixed_ind' (snd x)) (go r) end) kvs)
+    end.
+End MixedInd.
+
+Fixpoint raw_free (m : mixed) : bool :=
+  match m with
+  | MRaw _ => false
+  | MArr l => forallb raw_free l
+  | MObj kvs => forallb (fun kv => raw_free (snd kv)) kvs
+  | _ => true
+  end.
+
+Lemma smap_cons : forall {A B} (f : A -> sres B) x l,
+  smap f (x :: l) = sbind (f x) (fun y => sbind (smap f l) (fun ys => SOk (y :: ys))).
+Proof. reflexivity. Qed.
+
+Lemma smap_exists : forall {A B} (f : A -> sres B) (P : B -> Prop) l,
+  (forall x, In x l -> exists y, f x = SOk y /\ P y) -> exists l', smap f l = SOk l' /\ Forall P l'.
+Proof.
+  intros A B f P. induction l as [|x l IH]; intro H.
+  - exists []. split; [reflexivity | constructor].
+  - destruct (H x (or_introl eq_refl)) as [y [Hy Py]].
+    destruct IH as [l' [Hl Pl]]; [intros z Hz; apply H; right; exact Hz|].
+    exists (y :: l'). rewrite smap_cons, Hy. cbn [sbind]. rewrite Hl. split; [reflexivity | constructor; assumption].
+Qed.
+
+Lemma dict_loop_exists : forall {A} (ens : A -> sres json) kvs,
+  (forall kv, In kv kvs -> exists p, ens (snd kv) = SOk p) -> exists l, dict_loop ens kvs = SOk l.
+Proof.
+  intros A ens. induction kvs as [|[k v] kvs IH]; intro H; [exists []; reflexivity|].
+  destruct (H (k, v) (or_introl eq_refl)) as [p Hp]. cbn [snd] in Hp.
+  destruct IH as [l Hl]; [intros kv Hkv; apply H; right; exact Hkv|].
+  cbn [dict_loop]. rewrite Hp. cbn [sbind]. fold (dict_loop ens kvs). rewrite Hl. cbn [sbind]. eexists. reflexivity.
+Qed.
+
+Lemma ens_mixed_total : forall raw m, raw_free m = true -> exists j, ens_mixed raw m = SOk j.
+Proof.
+  intros raw. induction m using mixed_ind'; cbn [raw_free ens_mixed]; intro Hf;
+    try (eexists; reflexivity); try discriminate.
+  - destruct (smap_exists (ens_mixed raw) (fun _ => True) l) as [l' [Hl _]].
+    + intros x Hx. rewrite Forall_forall in H. rewrite forallb_forall in Hf.
+      destruct (H x Hx (Hf x Hx)) as [j Hj]. exists j. split; [exact Hj | exact I].
+    + rewrite Hl. eexists. reflexivity.
+  - destruct (dict_loop_exists (ens_mixed raw) kvs) as [l Hl].
+    + intros kv Hkv. rewrite Forall_forall in H. rewrite forallb_forall in Hf. apply (H kv Hkv (Hf kv Hkv)).
+    + rewrite Hl. eexists. reflexivity.
+Qed.
+
+Lemma mixed_json_total : forall fuel h m, raw_free m = true -> exists j, mixed_json fuel h m = SOk j.
+Proof.
+  intros fuel h. induction m using mixed_ind'; cbn [raw_free mixed_json]; intro Hf;
+    try (eexists; reflexivity); try discriminate.
+  - destruct (smap_exists (mixed_json fuel h) (fun _ => True) l) as [l' [Hl _]].
+    + intros x Hx. rewrite Forall_forall in H. rewrite forallb_forall in Hf.
+      destruct (H x Hx (Hf x Hx)) as [j Hj]. exists j. split; [exact Hj | exact I].
+    + rewrite Hl. eexists. reflexivity.
+  - destruct (smap_exists (fun kv : str * mixed => sbind (mixed_json fuel h (snd kv)) (fun j => SOk (fst kv, j)))
+                (fun _ => True) kvs) as [l' [Hl _]].
+    + intros kv Hkv. rewrite Forall_forall in H. rewrite forallb_forall in Hf.
+      destruct (H kv Hkv (Hf kv Hkv)) as [j Hj]. rewrite Hj. eexists. split; [reflexivity | exact I].
+    + rewrite Hl. eexists. reflexivity.
+Qed.
 
 Lemma ranked_from_refs : forall h i r x,
   ranked_from i h = true -> (r < length h)%nat -> In x (refs (nth r h SNone)) -> (x < i + r)%nat.
@@ -52,40 +129,49 @@ Proof.
   - rewrite nth_overflow in Hin by lia. destruct Hin.
 Qed.
 
-Lemma map_result_exists : forall {A B} (f : A -> result B) (P : B -> Prop) l,
-  (forall x, In x l -> exists y, f x = Ok y /\ P y) -> exists l', map_result f l = Ok l' /\ Forall P l'.
+Lemma deref_in : forall h r o, deref h r = o -> o <> SNone -> In o h.
 Proof.
-  intros A B f P. induction l as [|x l IH]; intro H.
-  - exists []. split; [reflexivity | constructor].
-  - destruct (H x (or_introl eq_refl)) as [y [Hy Py]].
-    destruct IH as [l' [Hl Pl]]; [intros z Hz; apply H; right; exact Hz|].
-    exists (y :: l'). rewrite map_result_cons, Hy, Hl. split; [reflexivity | constructor; assumption].
+  intros h r o Hd Hn. unfold deref in Hd.
+  destruct (Nat.lt_ge_cases r (length h)) as [Hlt|Hge].
+  - rewrite <- Hd. apply nth_In. exact Hlt.
+  - rewrite nth_overflow in Hd by lia. congruence.
 Qed.
 
-Lemma walk_total : forall h, ranked h = true ->
-  forall r fuel, (r < fuel)%nat -> exists j, cattrs_walk fuel h r = Ok j.
+Lemma no_fwd : forall h r fs, fwd_free h = true -> deref h r = SFwd fs -> False.
 Proof.
-  intros h Hr. induction r as [r IH] using lt_wf_ind. intros fuel Hf.
+  intros h r fs Hf Hd. unfold fwd_free in Hf. rewrite forallb_forall in Hf.
+  specialize (Hf (SFwd fs) (deref_in h r _ Hd ltac:(discriminate))). discriminate.
+Qed.
+
+Lemma walk_total : forall h, ranked h = true -> fwd_free h = true ->
+  forall r fuel, (r < fuel)%nat -> exists m, cattrs_walk fuel h r = SOk m /\ raw_free m = true.
+Proof.
+  intros h Hr Hff. induction r as [r IH] using lt_wf_ind. intros fuel Hf.
   destruct fuel as [|f]; [lia|]. cbn [cattrs_walk].
-  destruct (deref h r) as [| j | items | kvs | kvs] eqn:Ed; try (eexists; reflexivity).
-  - destruct (map_result_exists (cattrs_walk f h) (fun _ => True) items) as [l [Hl _]].
+  destruct (deref h r) as [| j | items | kvs | kvs | kvs] eqn:Ed;
+    try (eexists; split; reflexivity).
+  - destruct (smap_exists (cattrs_walk f h) (fun m => raw_free m = true) items) as [l [Hl Pl]].
     + intros x Hx. assert (Hlt : (x < r)%nat) by (apply (ranked_refs h r x Hr); rewrite Ed; exact Hx).
-      destruct (IH x Hlt f ltac:(lia)) as [j Hj]. exists j. split; [exact Hj | exact I].
-    + rewrite Hl. eexists. reflexivity.
-  - destruct (map_result_exists (fun kv : str * nat => bind (cattrs_walk f h (snd kv)) (fun j => Ok (fst kv, j)))
-                (fun _ => True) kvs) as [l [Hl _]].
+      apply (IH x Hlt f). lia.
+    + rewrite Hl. eexists. split; [reflexivity|]. cbn [raw_free]. rewrite forallb_forall.
+      rewrite Forall_forall in Pl. exact Pl.
+  - destruct (smap_exists (fun kv : str * nat => sbind (cattrs_walk f h (snd kv)) (fun m => SOk (fst kv, m)))
+                (fun kv => raw_free (snd kv) = true) kvs) as [l [Hl Pl]].
     + intros [k x] Hx. cbn [fst snd].
       assert (Hlt : (x < r)%nat).
       { apply (ranked_refs h r x Hr). rewrite Ed. cbn [refs]. apply in_map_iff. exists (k, x). auto. }
-      destruct (IH x Hlt f ltac:(lia)) as [j Hj]. rewrite Hj. eexists. split; [reflexivity | exact I].
-    + rewrite Hl. eexists. reflexivity.
-  - destruct (map_result_exists (fun kv : str * nat => bind (cattrs_walk f h (snd kv)) (fun j => Ok (fst kv, j)))
-                (fun _ => True) kvs) as [l [Hl _]].
+      destruct (IH x Hlt f ltac:(lia)) as [m [Hm Pm]]. rewrite Hm. eexists. split; [reflexivity | exact Pm].
+    + rewrite Hl. eexists. split; [reflexivity|]. cbn [raw_free]. rewrite forallb_forall.
+      rewrite Forall_forall in Pl. exact Pl.
+  - destruct (smap_exists (fun kv : str * nat => sbind (cattrs_walk f h (snd kv)) (fun m => SOk (fst kv, m)))
+                (fun kv => raw_free (snd kv) = true) kvs) as [l [Hl Pl]].
     + intros [k x] Hx. cbn [fst snd].
       assert (Hlt : (x < r)%nat).
       { apply (ranked_refs h r x Hr). rewrite Ed. cbn [refs]. apply in_map_iff. exists (k, x). auto. }
-      destruct (IH x Hlt f ltac:(lia)) as [j Hj]. rewrite Hj. eexists. split; [reflexivity | exact I].
-    + rewrite Hl. eexists. reflexivity.
+      destruct (IH x Hlt f ltac:(lia)) as [m [Hm Pm]]. rewrite Hm. eexists. split; [reflexivity | exact Pm].
+    + rewrite Hl. eexists. split; [reflexivity|]. cbn [raw_free]. rewrite forallb_forall.
+      rewrite Forall_forall in Pl. exact Pl.
+  - exfalso. exact (no_fwd h r kvs Hff Ed).
 Qed.
 
 Lemma remove_none_not_null : forall j, is_null j = false -> is_null (remove_none_values j) = false.
@@ -102,44 +188,57 @@ Proof.
     rewrite (remove_none_not_null v En), Hv. cbn [negb andb]. exact IH.
 Qed.
 
-Theorem serializer_partial : forall h, ranked h = true -> scalars_ok h = true ->
-  forall r fuel visited, (S r < fuel)%nat -> serializer_ok (serialize fuel h visited r).
+Theorem serializer_partial : forall h, ranked h = true -> fwd_free h = true -> scalars_ok h = true ->
+  forall r fuel visited, (S r < fuel)%nat -> serializer_ok (ser fuel h true visited r).
 Proof.
-  intros h Hr Hs. induction r as [r IH] using lt_wf_ind. intros fuel visited Hf.
-  destruct fuel as [|f]; [lia|]. unfold serializer_ok. cbn [serialize].
-  destruct (deref h r) as [| j | items | kvs | kvs] eqn:Ed.
+  intros h Hr Hff Hs. induction r as [r IH] using lt_wf_ind. intros fuel visited Hf.
+  destruct fuel as [|f]; [lia|]. unfold serializer_ok. cbn [ser].
+  destruct (deref h r) as [| j | items | kvs | kvs | kvs] eqn:Ed.
   - exists JNull. split; reflexivity.
   - exists j. split; [reflexivity|].
     assert (Hj : scalar_json j = true).
-    { unfold scalars_ok in Hs. rewrite forallb_forall in Hs. unfold deref in Ed.
-      destruct (Nat.lt_ge_cases r (length h)) as [Hlt|Hge].
-      - specialize (Hs (nth r h SNone) (nth_In h SNone Hlt)). rewrite Ed in Hs. exact Hs.
-      - rewrite nth_overflow in Ed by lia. discriminate. }
+    { unfold scalars_ok in Hs. rewrite forallb_forall in Hs.
+      specialize (Hs (SScalar j) (deref_in h r _ Ed ltac:(discriminate))). exact Hs. }
     destruct j; try discriminate Hj; reflexivity.
   - destruct (existsb (Nat.eqb r) visited); [exists JNull; split; reflexivity|].
-    destruct (map_result_exists (serialize f h (r :: visited)) (fun j => no_null_keys j = true) items) as [l [Hl Pl]].
+    destruct (smap_exists (ser f h true (r :: visited)) (fun j => no_null_keys j = true) items) as [l [Hl Pl]].
     + intros x Hx. assert (Hlt : (x < r)%nat) by (apply (ranked_refs h r x Hr); rewrite Ed; exact Hx).
-      destruct (IH x Hlt f (r :: visited) ltac:(lia)) as [j [Hj Pj]]. exists j. split; assumption.
-    + rewrite Hl. cbn [bind]. eexists. split; [reflexivity|].
+      apply (IH x Hlt f (r :: visited)). lia.
+    + rewrite Hl. cbn [sbind]. eexists. split; [reflexivity|].
       cbn [no_null_keys]. rewrite forallb_forall. rewrite Forall_forall in Pl. exact Pl.
   - destruct (existsb (Nat.eqb r) visited); [exists JNull; split; reflexivity|].
-    destruct (walk_total h Hr r f ltac:(lia)) as [j Hj]. rewrite Hj. cbn [bind].
+    destruct (walk_total h Hr Hff r f ltac:(lia)) as [m [Hm Pm]]. rewrite Hm. cbn [sbind].
+    destruct (mixed_json_total f h m Pm) as [j Hj]. rewrite Hj. cbn [sbind].
     eexists. split; [reflexivity | apply remove_none_clean].
   - destruct (existsb (Nat.eqb r) visited); [exists JNull; split; reflexivity|].
-    destruct (walk_total h Hr r f ltac:(lia)) as [j Hj]. rewrite Hj. cbn [bind].
+    destruct (walk_total h Hr Hff r f ltac:(lia)) as [m [Hm Pm]]. rewrite Hm. cbn [sbind].
+    destruct (ens_mixed_total (ser f h false (r :: visited)) m Pm) as [j Hj]. rewrite Hj. cbn [sbind].
     eexists. split; [reflexivity | apply remove_none_clean].
+  - exfalso. exact (no_fwd h r kvs Hff Ed).
 Qed.
 
-Corollary serializer_top_partial : forall h, ranked h = true -> scalars_ok h = true ->
+Corollary serializer_top_partial : forall h, ranked h = true -> fwd_free h = true -> scalars_ok h = true ->
   forall r, (r < length h)%nat -> serializer_ok (serialize_top h r).
 Proof.
-  intros h Hr Hs r Hlt. unfold serialize_top, fuel_for. apply serializer_partial; try assumption. lia.
+  intros h Hr Hff Hs r Hlt. unfold serialize_top, fuel_for. apply serializer_partial; try assumption. lia.
 Qed.
 
 (* non-vacuity: a dataclass holding a list, a dict with a None value and a nested dataclass *)
 Definition h_demo : heap :=
   [SNone; SScalar (JInt 3); SList [1; 0]%nat; SDict [([107], 0%nat); ([108], 2%nat)];
    SData [([97], 3%nat); ([98], 1%nat); ([99], 0%nat)]].
-Lemma h_demo_ok : ranked h_demo = true /\ scalars_ok h_demo = true /\
-  serialize_top h_demo 4 = Ok (JObj [([97], JObj [([108], JArr [JInt 3; JNull])]); ([98], JInt 3)]).
+Lemma h_demo_ok : ranked h_demo = true /\ fwd_free h_demo = true /\ scalars_ok h_demo = true /\
+  serialize_top h_demo 4 = SOk (JObj [([97], JObj [([108], JArr [JInt 3; JNull])]); ([98], JInt 3)]).
 Proof. vm_compute. repeat split. Qed.
+
+(* the shapes that DO work although they are cyclic: forward-reference dataclasses (pair cycle, back
+   pointer through a dict-typed attribute, child.parent inside a list) — evaluated, not generalised *)
+Definition h_cyc : heap :=
+  [SFwd [([112], 1%nat); ([105], 2%nat); ([107], 3%nat)];      (* 0: p -> 1, idx -> dict 2, kids -> list 3 *)
+   SFwd [([112], 0%nat)];                                          (* 1: p -> 0 (pair cycle) *)
+   SDict [([109], 0%nat); ([110], 5%nat)];                         (* 2: {"m": obj 0 (back edge), "n": None} *)
+   SList [4%nat];                                                   (* 3: [child] *)
+   SFwd [([112], 0%nat); ([118], 6%nat)];                          (* 4: child.p -> 0 (back pointer), v -> scalar *)
+   SNone; SScalar (JInt 1)].
+Lemma h_cyc_ok : serializer_ok (serialize_top h_cyc 0) /\ ranked h_cyc = false.
+Proof. split; [eexists; split; vm_compute; reflexivity | vm_compute; reflexivity]. Qed.
